@@ -3,7 +3,8 @@
 Lean: Model/Channel.lean (one endpoint of asyncssh/channel.py SSHChannel), Model/ChannelSys.lean (two endpoints, one
 FIFO link per direction, N channels multiplexed), Model/ChannelCodec.lean (UTF-8 layer); Props/C07.lean
 (stream_inv, delivered_is_prefix, eof_only_if_signalled, eof_after_all_data, eof_last, eof_delivered_if_sent,
-eof_lost_when_close_overtakes_old (witness for the code before fix 024eb80), eof_not_sent_when_close_overrides,
+eof_delivered_if_signalled, eof_lost_when_close_overtakes_old / eof_not_sent_when_close_overrides_old (witnesses
+for the code before the fixes 024eb80 / d334dad),
 channels_independent_prop, utf8_split_ok, text_delivered_is_text_written, ...).
 Correspondence: a real SSHClientConnection / SSHServerConnection pair over the in-memory hub (manual delivery, one
 SSH packet at a time, packet tap), raw SSHClientSession / SSHServerSession callback API, scripted by the seeded PRNG:
@@ -37,12 +38,13 @@ MANIFEST = {
             'delivered ++ receive buffer ++ in flight ++ send buffer = written as byte streams tagged with their datatype '
             '(stream_inv: complete, ordered within and across datatypes, no loss, no duplication), delivered is always a '
             'prefix of written, eof_received only if the sender went through write_eof, only after all data, once and '
-            'last, and always once the EOF message was sent (also when CLOSE overtakes it: fix 024eb80; the old '
-            'behaviour is kept as a witness theorem about the old functions); UTF-8 decoding independent of packet boundaries (byte-exact incremental decoder, round trip for every '
+            'last, and always once the application called write_eof() before its own close() and its data went out '
+            '(eof_delivered_if_signalled; also when close() follows write_eof() with data still buffered — fix d334dad '
+            '— and when CLOSE overtakes the EOF at the receiver — fix 024eb80; the old behaviours are kept as witness '
+            'theorems about the old functions); UTF-8 decoding independent of packet boundaries (byte-exact incremental decoder, round trip for every '
             'scalar value); per-channel projection of a multiplexed run. The model is tied to the code by the translator '
             '(send-loop arithmetic from the AST) and by a differential run against two real endpoints driven packet by '
-            'packet. Remaining gap, proved as a witness and reported by the oracle: write_eof() followed by close() while '
-            'data waits for window never sends the EOF message.',
+            'packet.',
     'note': 'session objects use the raw callback API; stream.py is only the consumer; non-UTF-8 codecs are trusted to '
             'be byte-wise transducers (chunk independence then holds by construction); pause_writing/resume_writing '
             'callbacks and channel requests are not modelled; abort() is not modelled',
